@@ -1,7 +1,12 @@
 /-
 C19 — time arithmetic is exact or None and never panics.
-Property theorems about `TinyVerif.Model.Time` (the model is tied to
-tiny-std/src/time.rs by the correspondence run of `bin/check C19`).
+Property theorems about `TinyVerif.Model.Time`.  The model is tied to the source twice:
+ * tie T (section "tie T" below): `Gen/TimePure.lean` is regenerated on every run by checks/time_extract.py from
+   the Rust TEXT of tiny-std/src/time.rs and rusl/src/platform/compat/time.rs; the `gen_agrees_*` theorems prove
+   that the translated public entry points EQUAL the model's functions for all `TimeSpec`s (both fields any i64)
+   and all `Duration`s, both build profiles — so every theorem below holds of what the source says now
+   (`src_*` corollaries), and an edit of the arithmetic breaks a proof obligation;
+ * the correspondence run of `bin/check C19` (model, generated definitions and the real code on the same inputs).
 
 Every theorem quantifies over *all* values of its arguments that satisfy the stated
 (decidable, satisfiable — see the `example`s) well-formedness predicates; `rel` is the
@@ -10,7 +15,9 @@ statement holds for both.
 -/
 import TinyVerif.Model.Time
 import TinyVerif.Proofs.TimeLemmas
+import TinyVerif.Gen.TimePure
 set_option linter.unusedSimpArgs false
+set_option linter.unusedVariables false
 namespace TinyVerif.Time
 
 /-- exact value in nanoseconds -/
@@ -251,6 +258,158 @@ theorem since_epoch_no_panic (rel : Bool) (l : TS) (hl : NormTS l) :
     omega
   · exfalso; simp only [asU32, asU64, TWO32, TWO64, NANOS] at *; omega
 
+/-! ## the Duration → TimeSpec conversion (`TryFrom<Duration> for TimeSpec`, used by `thread::sleep`) -/
+
+def D2TPost (d : Dur) : R TS → Prop
+  | .val r => NormTS r ∧ 0 ≤ r.sec ∧ nanosTS r = nanosDur d
+  | .none => d.secs > I64_MAX
+  | .panic => False
+
+/-- the conversion never panics, is exact, and fails exactly when the seconds do not fit an i64 -/
+theorem dur_to_ts_exact (d : Dur) (hd : NormDur d) : D2TPost d (durToTS d) := by
+  simp only [durToTS, tryI64, bind_val, bind_none, bind_panic, pure_eq, bind_ite]
+  split
+  all_goals simp only [D2TPost, NormTS, NormDur, nanosTS, nanosDur, inI64, I64_MIN, I64_MAX, U64_MAX, NANOS, and_true] at *
+  all_goals omega
+
+/-! ## tie T: the definitions generated from the Rust text agree with the model -/
+
+/-- any `TimeSpec` value: both fields arbitrary i64 (normalised or not) -/
+def RawTS (t : TS) : Prop := I64_MIN ≤ t.sec ∧ t.sec ≤ I64_MAX ∧ I64_MIN ≤ t.nsec ∧ t.nsec ≤ I64_MAX
+
+theorem NormTS.raw {t : TS} (h : NormTS t) : RawTS t := by
+  simp only [NormTS, RawTS, I64_MIN, I64_MAX, NANOS] at *; omega
+
+theorem ite_both {α : Type} (c : Prop) {_ : Decidable c} (a b a' b' : α) (h1 : c → a = a') (h2 : ¬c → b = b') :
+    (if c then a else b) = (if c then a' else b') := by split <;> simp_all
+theorem ite_left {α : Type} (c : Prop) {_ : Decidable c} (a b m : α) (h1 : c → a = m) (h2 : ¬c → b = m) :
+    (if c then a else b) = m := by split <;> simp_all
+theorem ite_right {α : Type} (c : Prop) {_ : Decidable c} (a b m : α) (h1 : c → m = a) (h2 : ¬c → m = b) :
+    m = (if c then a else b) := by split <;> simp_all
+theorem wrapI64_eq (x : Int) :
+    wrapI64 x = -9223372036854775808 + (x - -9223372036854775808) % 18446744073709551616 := by
+  simp only [wrapI64, TWO64, I64_MAX]; omega
+
+/-- `generated = model`: unfold both sides into trees of `if`s over integer comparisons (the generated file
+supplies `time_gen_unfold` / `time_gen_consts` listing whatever functions the current source consists of), walk
+the two trees together (same condition on both sides: one case split for both; otherwise split one side and
+discard contradictory paths by `omega`), close the leaves by `omega`.  Nothing here names a function of the
+source, so helper functions / `match` / let-else / immutable bindings in the source do not matter. -/
+macro "gen_agree" : tactic => `(tactic|
+  (time_gen_unfold
+   all_goals (try simp only [checkedAddDur, checkedSubDur, subTsCheckedDur, subTsDur, durNew, durToTS, ckI64, ckU64, tryI64,
+      tryU64, tryU32, plainI64, bind_val, bind_none, bind_panic, pure_eq, bind_ite, inI64, inU64, inU32])
+   all_goals (try time_gen_consts)
+   all_goals (try simp only [asU64, asU32, RawTS, NormDur, I64_MIN, I64_MAX, U64_MAX, U32_MAX, TWO64, TWO32, NANOS,
+      Int.add_zero, Int.sub_zero, Int.zero_add, wrapI64_eq, if_true, if_false, eq_self, Bool.false_eq_true] at *)
+   all_goals repeat' (first
+     | with_reducible rfl
+     | (apply ite_both) <;> intro _
+     | ((apply ite_left) <;> intro _ <;> try (exfalso; omega))
+     | ((apply ite_right) <;> intro _ <;> try (exfalso; omega)))
+   all_goals (first | (simp only [R.val.injEq, TS.mk.injEq, Dur.mk.injEq, reduceCtorEq]; omega) | omega)))
+
+/-- **`+ Duration`** as written in the source = the model, for every TimeSpec and every Duration -/
+theorem gen_agrees_add (rel : Bool) (t : TS) (d : Dur) (ht : RawTS t) (hd : NormDur d) :
+    TimeGen.Instant_add rel t d = checkedAddDur rel t d ∧ TimeGen.SystemTime_add rel t d = checkedAddDur rel t d := by
+  constructor <;> gen_agree
+
+/-- **`- Duration`** as written in the source = the model -/
+theorem gen_agrees_sub (rel : Bool) (t : TS) (d : Dur) (ht : RawTS t) (hd : NormDur d) :
+    TimeGen.Instant_sub_Duration rel t d = checkedSubDur rel t d ∧
+    TimeGen.SystemTime_sub_Duration rel t d = checkedSubDur rel t d := by
+  constructor <;> gen_agree
+
+/-- **difference of two time values** (`-` and `duration_since`, both types) as written in the source = the model -/
+theorem gen_agrees_diff (rel : Bool) (l r : TS) (hl : RawTS l) (hr : RawTS r) :
+    TimeGen.Instant_sub rel l r = subTsCheckedDur rel l r ∧
+    TimeGen.Instant_duration_since rel l r = subTsCheckedDur rel l r ∧
+    TimeGen.SystemTime_sub rel l r = subTsCheckedDur rel l r ∧
+    TimeGen.SystemTime_duration_since rel l r = subTsCheckedDur rel l r := by
+  refine ⟨?_, ?_, ?_, ?_⟩ <;> gen_agree
+
+/-- **`elapsed()`** as written in the source is the checked difference `now - self`, `now` = the clock reading -/
+theorem gen_agrees_elapsed (rel : Bool) (now t : TS) (hn : RawTS now) (ht : RawTS t) :
+    TimeGen.Instant_elapsed rel now t = subTsCheckedDur rel now t ∧
+    TimeGen.SystemTime_elapsed rel now t = subTsCheckedDur rel now t := by
+  constructor <;> gen_agree
+
+/-- the **unchecked difference** entry points as written in the source = the model's `subTsDur` -/
+theorem gen_agrees_diffu (rel : Bool) (now t : TS) (hn : RawTS now) (ht : RawTS t) :
+    TimeGen.MonotonicInstant_elapsed rel now t = subTsDur rel now t ∧
+    TimeGen.SystemTime_duration_since_unix_time rel t = subTsDur rel t ⟨0, 0⟩ := by
+  constructor <;> gen_agree
+
+/-- `TimeSpec::try_from(Duration)` as written in the source = the model -/
+theorem gen_agrees_dur_to_ts (rel : Bool) (d : Dur) (hd : NormDur d) :
+    TimeGen.TimeSpec_try_from rel d = durToTS d := by
+  gen_agree
+
+/-! ### the property, stated of the generated (= source) definitions -/
+
+theorem src_add_exact (rel : Bool) (t : TS) (d : Dur) (ht : NormTS t) (hd : NormDur d) :
+    AddPost t d (TimeGen.Instant_add rel t d) ∧ AddPost t d (TimeGen.SystemTime_add rel t d) := by
+  have h := gen_agrees_add rel t d ht.raw hd
+  rw [h.1, h.2]; exact ⟨add_exact rel t d ht hd, add_exact rel t d ht hd⟩
+
+theorem src_sub_exact (rel : Bool) (t : TS) (d : Dur) (ht : NormTS t) (hd : NormDur d) :
+    SubPost t d (TimeGen.Instant_sub_Duration rel t d) ∧ SubPost t d (TimeGen.SystemTime_sub_Duration rel t d) := by
+  have h := gen_agrees_sub rel t d ht.raw hd
+  rw [h.1, h.2]; exact ⟨sub_exact rel t d ht hd, sub_exact rel t d ht hd⟩
+
+theorem src_diff_exact (rel : Bool) (l r : TS) (hl : NormTS l) (hr : NormTS r) :
+    DiffPost l r (TimeGen.Instant_sub rel l r) ∧ DiffPost l r (TimeGen.SystemTime_sub rel l r) ∧
+    DiffPost l r (TimeGen.Instant_duration_since rel l r) ∧ DiffPost l r (TimeGen.SystemTime_duration_since rel l r) := by
+  have h := gen_agrees_diff rel l r hl.raw hr.raw
+  rw [h.1, h.2.1, h.2.2.1, h.2.2.2]
+  exact ⟨diff_exact rel l r hl hr, diff_exact rel l r hl hr, diff_exact rel l r hl hr, diff_exact rel l r hl hr⟩
+
+/-- `elapsed()` of both manipulable types: exact `now - self`, `None` exactly when `self` is after the clock
+reading (for readings and values at or after the epoch), never a panic -/
+theorem src_elapsed_exact (rel : Bool) (now t : TS) (hn : NormTS now) (ht : NormTS t) :
+    DiffPost now t (TimeGen.Instant_elapsed rel now t) ∧ DiffPost now t (TimeGen.SystemTime_elapsed rel now t) := by
+  have h := gen_agrees_elapsed rel now t hn.raw ht.raw
+  rw [h.1, h.2]; exact ⟨diff_exact rel now t hn ht, diff_exact rel now t hn ht⟩
+
+/-- `(t + d) - d = t` and `(t + d) - t = d` through the source's own operators -/
+theorem src_add_cancel (rel : Bool) (t r : TS) (d : Dur) (ht : NormTS t) (hd : NormDur d) (h0 : 0 ≤ t.sec)
+    (h : TimeGen.Instant_add rel t d = .val r) :
+    TimeGen.Instant_sub_Duration rel r d = .val t ∧ TimeGen.Instant_sub rel r t = .val d := by
+  rw [(gen_agrees_add rel t d ht.raw hd).1] at h
+  have ha := add_exact rel t d ht hd
+  rw [h] at ha; simp only [AddPost] at ha
+  rw [(gen_agrees_sub rel r d ha.1.raw hd).1, (gen_agrees_diff rel r t ha.1.raw ht.raw).1]
+  exact ⟨add_sub_cancel rel t r d ht hd h0 h, add_diff_cancel rel t r d ht hd h0 h⟩
+
+/-- `(t - d) + d = t` through the source's own operators -/
+theorem src_sub_add_cancel (rel : Bool) (t r : TS) (d : Dur) (ht : NormTS t) (hd : NormDur d)
+    (h : TimeGen.Instant_sub_Duration rel t d = .val r) : TimeGen.Instant_add rel r d = .val t := by
+  rw [(gen_agrees_sub rel t d ht.raw hd).1] at h
+  have hs := sub_exact rel t d ht hd
+  rw [h] at hs; simp only [SubPost] at hs
+  rw [(gen_agrees_add rel r d hs.1.raw hd).1]
+  exact sub_add_cancel rel t r d ht hd h
+
+/-- ordering agrees with the source's subtraction -/
+theorem src_ord_agrees_with_sub (rel : Bool) (t u : TS) (ht : NormTS t) (hu : NormTS u) (h0 : 0 ≤ t.sec) (h1 : 0 ≤ u.sec) :
+    cmpTS t u ≠ .gt ↔ ∃ δ, TimeGen.Instant_sub rel u t = .val δ := by
+  rw [(gen_agrees_diff rel u t hu.raw ht.raw).1]
+  exact ord_agrees_with_sub rel t u ht hu h0 h1
+
+/-- the unchecked entry points of the source on their documented domain -/
+theorem src_sub_ts_dur_safe (rel : Bool) (now t : TS) (hn : NormTS now) (ht : NormTS t) (h1 : 0 ≤ t.sec)
+    (hge : nanosTS t ≤ nanosTS now) : UDiffPost now t (TimeGen.MonotonicInstant_elapsed rel now t) := by
+  rw [(gen_agrees_diffu rel now t hn.raw ht.raw).1]
+  exact sub_ts_dur_safe rel now t hn ht h1 hge
+
+theorem src_since_epoch_no_panic (rel : Bool) (l : TS) (hl : NormTS l) :
+    EpochPost l (TimeGen.SystemTime_duration_since_unix_time rel l) := by
+  rw [(gen_agrees_diffu rel l l hl.raw hl.raw).2]
+  exact since_epoch_no_panic rel l hl
+
+theorem src_dur_to_ts_exact (rel : Bool) (d : Dur) (hd : NormDur d) : D2TPost d (TimeGen.TimeSpec_try_from rel d) := by
+  rw [gen_agrees_dur_to_ts rel d hd]; exact dur_to_ts_exact d hd
+
 /-! ## sleep -/
 
 /-- `thread::sleep`'s retry loop: whenever it returns `Ok`, the time slept in total is at least what was asked,
@@ -290,5 +449,24 @@ example : checkedSubDur false ⟨-5, 0⟩ ⟨0, 0⟩ = .none := by decide
 example : subTsCheckedDur false ⟨1, 0⟩ ⟨0, 999999999⟩ = .val ⟨0, 1⟩ := by decide
 example : subTsCheckedDur false ⟨0, 999999999⟩ ⟨1, 0⟩ = .none := by decide
 example : sleepLoop [.eintr 30 0, .done 5] 100 0 0 = (some true, 105, 2) := by decide
+example : durToTS ⟨5, 7⟩ = .val ⟨5, 7⟩ ∧ durToTS ⟨9223372036854775808, 0⟩ = .none := by decide
+-- tie T: the hypotheses of the agreement theorems are met by extreme and by non-normalised values, and the
+-- generated definitions compute (carry, borrow, None and the wrapped `as u64` branch are live)
+example : RawTS ⟨I64_MIN, I64_MIN⟩ ∧ RawTS ⟨I64_MAX, I64_MAX⟩ ∧ RawTS ⟨0, 4000000000⟩ ∧ NormDur ⟨U64_MAX, 999999999⟩ := by
+  simp [RawTS, NormDur, I64_MIN, I64_MAX, U64_MAX, NANOS]
+example : TimeGen.Instant_add false ⟨0, 999999999⟩ ⟨0, 1⟩ = .val ⟨1, 0⟩ := by decide
+example : TimeGen.SystemTime_add true ⟨I64_MAX, 999999999⟩ ⟨0, 1⟩ = .none := by decide
+example : TimeGen.Instant_sub_Duration false ⟨5, 0⟩ ⟨5, 1⟩ = .none := by decide
+example : TimeGen.SystemTime_sub_Duration false ⟨1, 0⟩ ⟨0, 1⟩ = .val ⟨0, 999999999⟩ := by decide
+example : TimeGen.Instant_sub false ⟨1, 0⟩ ⟨0, 999999999⟩ = .val ⟨0, 1⟩ := by decide
+example : TimeGen.SystemTime_duration_since false ⟨0, 999999999⟩ ⟨1, 0⟩ = .none := by decide
+example : TimeGen.Instant_elapsed false ⟨7, 5⟩ ⟨7, 6⟩ = .none ∧ TimeGen.Instant_elapsed false ⟨7, 6⟩ ⟨7, 5⟩ = .val ⟨0, 1⟩ := by decide
+example : TimeGen.MonotonicInstant_elapsed false ⟨2, 0⟩ ⟨0, 1⟩ = .val ⟨1, 999999999⟩ := by decide
+example : TimeGen.SystemTime_duration_since_unix_time false ⟨-1, 0⟩ = .val ⟨18446744073709551615, 0⟩ := by decide
+example : TimeGen.MonotonicInstant_elapsed false ⟨0, 0⟩ ⟨I64_MIN, 0⟩ = .panic ∧
+    TimeGen.MonotonicInstant_elapsed true ⟨0, 0⟩ ⟨I64_MIN, 0⟩ = .val ⟨9223372036854775808, 0⟩ := by decide
+example : TimeGen.TimeSpec_try_from false ⟨5, 7⟩ = .val ⟨5, 7⟩ ∧ TimeGen.TimeSpec_try_from false ⟨9223372036854775808, 0⟩ = .none := by decide
+example : TimeGen.Instant_add false ⟨0, 999999999⟩ ⟨0, 1⟩ = .val ⟨1, 0⟩ ∧ TimeGen.Instant_sub_Duration false ⟨1, 0⟩ ⟨0, 1⟩ = .val ⟨0, 999999999⟩ ∧
+    TimeGen.Instant_sub false ⟨1, 0⟩ ⟨0, 999999999⟩ = .val ⟨0, 1⟩ := by decide
 
 end TinyVerif.Time
